@@ -57,7 +57,7 @@ def scenarios(r, n):
     out = []
     for k in range(n):
         spec = drvgen.base_scenario(r, cheap_bias=0.85)
-        drvgen.history(r, spec)
+        drvgen.history(r, spec, criteria=0.35)
         spec["durs"] = r.choice([[0], [1], [0.25, 0, 2], [0, 0, 1]])
         # print_times divides by the total iteration time: only with non-zero durations
         for c in spec["calls"]:
